@@ -54,6 +54,11 @@ func CloneInto(src, dst Model) {
 	}
 
 	aBytes, _ := json.Marshal(src)
+	// start from a zero model: decoding into a populated one would merge maps
+	// rather than replace them
+	if dstVal := reflect.ValueOf(dst); dstVal.Kind() == reflect.Ptr && !dstVal.IsNil() {
+		dstVal.Elem().Set(reflect.Zero(dstVal.Elem().Type()))
+	}
 	_ = json.Unmarshal(aBytes, dst)
 }
 
